@@ -26,6 +26,9 @@ import os
 import random
 import subprocess
 import sys
+
+if hasattr(sys, 'set_int_max_str_digits'):
+    sys.set_int_max_str_digits(0)      # a wrong answer of the code under test may be a very large integer; reporting it must not fail
 import time
 import traceback
 
@@ -124,7 +127,8 @@ class Acc:
         """Registers a candidate violation (confirmed through the CLI in the parent).  Up to MAX_VIOL candidates are kept
         per priority level; lower levels are confirmed first (used for clauses a cross-run state leak cannot fake)."""
         self.nviol += 1
-        if sum(1 for v in self.violations if v.get('priority', 0) == priority) < MAX_VIOL:
+        # the cap is per (priority, attributed finding): candidates attributed to a known finding never crowd out others
+        if sum(1 for v in self.violations if v.get('priority', 0) == priority and v.get('finding') == finding) < MAX_VIOL:
             self.violations.append({
                 'priority': priority,
                 'cases': [c.to_json() if isinstance(c, Case) else c for c in cases],
@@ -149,7 +153,8 @@ class Acc:
             self.known_examples.setdefault(k, v)
         self.nviol += o.nviol
         for v in o.violations:
-            if sum(1 for w in self.violations if w.get('priority', 0) == v.get('priority', 0)) < MAX_VIOL * 4:
+            if sum(1 for w in self.violations if w.get('priority', 0) == v.get('priority', 0)
+                   and w.get('finding') == v.get('finding')) < MAX_VIOL * 4:
                 self.violations.append(v)
         for s in o.samples:
             if len(self.samples) < 3:
